@@ -163,6 +163,7 @@ void sample_states(const char *where) {
             sim::tr("state", s.idx, old, st);
             orc_state_edge(s.idx, old, st, where);
             orc_c08_edge(s.idx, old, st);
+            orc_c19_edge(s.idx, old, st);
             if (st == ST_STOPPED || st == ST_ZOMBIE) {
                 clear_mirrors(s);
                 // messages not yet delivered to this module are discarded
@@ -186,6 +187,7 @@ struct ApiScope {
     int slot;
     int st_before;
     bool want_snap;
+    int actor = -1;
     ApiScope(const char *name, int slot_) : slot(slot_) {
         sample_states("api-enter");
         st_before = state_of(slot);
@@ -199,6 +201,15 @@ struct ApiScope {
             W->c07_edges_before.clear();
             for (auto &sl : W->slots) if (sl.st == ST_RUNNING || sl.st == ST_PAUSED) { W->c07_active_before[sl.idx] = sl.n_cb[CB_STOP]; W->c07_edges_before[sl.idx] = sl.leave_active; }
         }
+        if (on("C15")) {
+            bool known15;
+            W->c15_looping_at_entry = ctx_is_looping_probe(&known15);   // LOOPING proper (during the final flush the statement is silent)
+            W->c15_nested_cb_returned = false;
+            // did a nested callback already run and return inside the innermost executing callback?
+            for (int i = (int)W->frames.size() - 1; i >= 0; i--) if (W->frames[i].is_cb) { W->c15_nested_cb_returned = W->frames[i].nested > 0; break; }
+        }
+        actor = W->next_actor;
+        W->next_actor = -1;
         Frame f;
         f.had_ctx_at_entry = W->has_ctx;
         f.ctx_gen_at_entry = W->ctx_registrations;
@@ -212,6 +223,7 @@ struct ApiScope {
         Frame f = W->frames.back();
         W->frames.pop_back();
         ApiRec r;
+        r.actor = actor;
         r.name = f.name; r.slot = slot; r.rc = rc; r.st_before = st_before; r.st_after = state_of(slot); r.gseq = R->gseq; r.in_cb = in_any_cb();
         std::string snap1 = (want_snap && rc != 0) ? snapshot() : std::string();
         if (W->apis.size() < 100000) W->apis.push_back(r);
@@ -235,7 +247,7 @@ static void run_script(int slot, int cb, int n) {
 static int cb_enter(m_mod_t *self, int cb) {
     int slot = slot_of(self);
     if (slot < 0) return -1;
-    for (auto &f : W->frames) if (!f.is_cb) f.nested++;
+    for (auto &f : W->frames) f.nested++;   // api frames: a callback ran inside; callback frames: a nested callback ran inside
     Frame f;
     f.is_cb = true;
     f.cb = cb;
@@ -270,6 +282,9 @@ static bool cb_start(m_mod_t *self) {
 static void cb_stop(m_mod_t *self) {
     int slot = cb_enter(self, CB_STOP);
     if (slot < 0) return;
+    // stopping removes the token bucket (also when a STOPPED/IDLE module is "stopped" again by its deregistration)
+    W->slots[slot].tb_rate = 0;
+    W->slots[slot].tb_burst = 0;
     int n = W->slots[slot].n_cb[CB_STOP]++;
     run_script(slot, CB_STOP, n);
     cb_exit(slot, CB_STOP);
@@ -417,6 +432,7 @@ static void loop_begin(bool blocking) {
     W->ctx_looping = true;
     W->loop_start_pending_eval = true;
     W->reg_dereg_since_quiescent = 0;   // only (de)registrations made during the start pass itself excuse a delay
+    orc_c19_loop_edge(true);
 }
 static void loop_end(int rc) {
     if (W->loops.empty() || W->loops.back().ended) return;
@@ -429,6 +445,7 @@ static void loop_end(int rc) {
     if (W->loop_start_pending_eval) quiescent_hook();   // loop ended without ever polling: the start pass still happened
     W->ctx_looping = false;
     sim::tr("loop_end", rc);
+    orc_c19_loop_edge(false);
     // messages for modules that are PAUSED when the loop ends are discarded
     // (sends made by handlers of the final flush itself come after the flush that would discard them: left unconstrained)
     for (auto &sd : W->sends)
@@ -542,6 +559,11 @@ static void erase_src(Slot &s, int type, long k1, long k2 = 0) {
 
 static void do_send(int kind, int from, int to, long topic_idx, bool autofree, int count);
 
+// the module's context is there and neither is in the middle of being torn down: only then "a legal call succeeds" is asserted
+static bool calm(int m) {
+    return W->has_ctx && W->slots[m].ctx_gen == W->ctx_registrations && !frame_on_stack("dereg", m) && !frame_on_stack_any("ctx_dereg") && !frame_on_stack_any("reg");
+}
+
 void exec_op(const Op &op, bool in_cb, int cb_slot) {
     const std::string &n = op.name;
     if (R->horizon_hit && n != "ctx_quit") { /* keep going: teardown still runs */ }
@@ -577,7 +599,11 @@ void exec_op(const Op &op, bool in_cb, int cb_slot) {
         uint64_t ns = op.arg(0) <= 0 ? 0 : TMR_NS_POOL[op.arg(0) % TMR_NS_POOL_N];
         ApiScope a("ctx_tick", -1);
         int rc = a.done(m_ctx_set_tick(ns));
-        if (rc == 0) W->ctx_tick_ns = ns;
+        if (rc == 0) {
+            W->ctx_tick_ns = ns;
+            W->ctx_tick_set_gseq = R->gseq;
+            if (ns) { W->c19_tick_ever = true; if (!W->c19_min_tick_ns || ns < W->c19_min_tick_ns) W->c19_min_tick_ns = ns; }
+        }
         sim::tr("ctx_tick", (long)(ns / 1000), rc);
         return;
     }
@@ -586,7 +612,7 @@ void exec_op(const Op &op, bool in_cb, int cb_slot) {
         int code = (int)(op.arg(0) & 0xff);
         int rc = a.done(m_ctx_quit((uint8_t)code));
         sim::tr("ctx_quit", code, rc);
-        if (rc == 0 && !W->loops.empty() && !W->loops.back().ended) { W->loops.back().quit_requested = true; W->loops.back().quit_code = code; }
+        if (rc == 0 && !W->loops.empty() && !W->loops.back().ended) { W->loops.back().quit_requested = true; W->loops.back().quit_code = code; W->loops.back().quit_gseq = R->gseq; }
         return;
     }
     if (n == "ctx_misc") {
@@ -599,6 +625,7 @@ void exec_op(const Op &op, bool in_cb, int cb_slot) {
         case 3: rc = m_ctx_userdata() ? 1 : 0; break;
         case 4: rc = m_ctx_dump(); break;
         }
+        W->c15_misc_null = ((op.arg(0) % 5 == 2 || op.arg(0) % 5 == 3) && rc == 0);   // name/userdata getters report "no context" as NULL
         a.done(rc < 0 ? rc : 0);
         sim::tr("ctx_misc", op.arg(0) % 5, rc);
         return;
@@ -662,6 +689,11 @@ void exec_op(const Op &op, bool in_cb, int cb_slot) {
         int idx = (int)W->slots.size() - 1;
         W->reg_dereg_since_quiescent++;
         m_mod_t *h = nullptr;
+        W->c15_name_holder = -1;
+        for (auto &o : W->slots)
+            if (o.idx != idx && o.name == W->slots[idx].name && o.ctx_gen == W->ctx_registrations && o.st != ST_NONE && o.st != ST_ZOMBIE &&
+                !frame_on_stack("dereg", o.idx) && !frame_on_stack_any("ctx_dereg") && !frame_on_stack_any("reg")) W->c15_name_holder = o.idx;   // (a module in the middle of its deregistration no longer holds its name)
+        W->slots[idx].reg_gseq = R->gseq;
         ApiScope a("reg", idx);
         int rc = m_mod_register(nm, &h, &hook, (m_mod_flags)fl, ud);
         if (fl & M_MOD_NAME_DUP) memset(tmpname, 'Z', sizeof tmpname - 1);
@@ -813,14 +845,14 @@ void exec_op(const Op &op, bool in_cb, int cb_slot) {
                 if (same_flags_update) {
                     if (fl & M_SRC_AUTOFREE) { /* ownership of the new pointer passed to the existing subscription */ }
                     it->second.ud = id;
-                    s.sub_history.push_back({topic, id});
+                    s.sub_history.push_back({topic, id, fl, R->gseq});
                     if (fl & M_SRC_ONESHOT) s.oneshot_sub_uds.insert(id);
                     return;
                 }
                 if (it->second.re_ok) regfree(&it->second.re);
                 s.subs.erase(it);
             }
-            s.sub_history.push_back({topic, id});
+            s.sub_history.push_back({topic, id, fl, R->gseq});
             if (fl & M_SRC_ONESHOT) s.oneshot_sub_uds.insert(id);
             if (op.arg(1) >= 100) s.pending_exact = false;   // system notifications will share the mailbox
             SubM sm;
@@ -999,34 +1031,81 @@ void exec_op(const Op &op, bool in_cb, int cb_slot) {
         Delivery *d = W->cur_delivery.back();
         if (d->evts.empty() || d->slot != m) return;
         EvtObs &e = d->evts[((op.arg(1) % (long)d->evts.size()) + d->evts.size()) % d->evts.size()];
+        int st_now = state_of(m);
         ApiScope a("stash", m);
         int rc = a.done(m_mod_stash(h, e.raw));
         sim::tr("stash", m, rc);
+        if (on("C16")) {
+            oracle_eval("C16.stash-allowed");
+            // high priority: descriptor events always, anything whose source/subscription was registered HIGH
+            bool high = e.type == M_SRC_TYPE_FD;
+            if (e.type == M_SRC_TYPE_PS) { for (auto &hh : s.sub_history) if (hh.second == e.ud && e.ud && (hh.flags & M_SRC_PRIO_HIGH)) high = true; }
+            else for (auto &x : s.srcs) if (x.type == e.type && x.ud == e.ud && (x.flags & M_SRC_PRIO_HIGH)) high = true;
+            if (st_now != ST_RUNNING && rc >= 0) VIOL("C16", "C16:stash-while-not-running", "m_mod_stash on a %s module returned %d", st_name(st_now), rc);
+            if (high && rc >= 0) VIOL("C16", "C16:stash-high-priority-accepted", "stashing a high-priority event returned %d", rc);
+            if (st_now == ST_RUNNING && !high && rc != 0 && s.tb_rate == 0 && calm(m)) VIOL("C16", "C16:stash-refused", "stashing a %s-priority event on a RUNNING module returned %d", "normal/low", rc);
+        }
         if (rc == 0) s.stash.push_back(StashM{e.send_id, e.ud, e.type, e.data, e.raw});
         return;
     }
     if (n == "unstash") {
         size_t cnt = op.arg(1) < 0 ? SIZE_MAX : (size_t)op.arg(1);
+        int st_now = state_of(m);
+        size_t k = st_now == ST_RUNNING && cnt > 0 ? std::min(cnt, s.stash.size()) : 0;
+        World::C16Expect ex;
+        ex.slot = m; ex.k = k; ex.seen = false;
+        for (size_t i = 0; i < k; i++) ex.want.push_back(s.stash[i]);
+        W->c16_expect.push_back(ex);
+        // the mirror gives them up before the handler runs (it may stash again)
+        for (size_t i = 0; i < k; i++) s.stash.pop_front();
         ApiScope a("unstash", m);
         g_unstash_depth++;
         ssize_t rc = m_mod_unstash(h, cnt);
         g_unstash_depth--;
         a.done((int)rc);
         sim::tr("unstash", m, (long)op.arg(1), (long)rc);
+        ex = W->c16_expect.back();
+        W->c16_expect.pop_back();
+        if (on("C16")) {
+            oracle_eval("C16.unstash-count");
+            if (st_now != ST_RUNNING || cnt == 0) {
+                if (rc >= 0 && st_now != ST_RUNNING) VIOL("C16", "C16:unstash-while-not-running", "m_mod_unstash on a %s module returned %zd", st_name(st_now), rc);
+            } else if (s.tb_rate == 0 && calm(m)) {
+                if (rc != (ssize_t)k) {
+                    char sig[64];
+                    snprintf(sig, sizeof sig, "C16:unstash-return:%s", rc < (ssize_t)k ? "fewer" : "more");
+                    VIOL("C16", sig, "m_mod_unstash(%ld) with %zu stashed event(s) returned %zd, expected %zu", op.arg(1), k + s.stash.size(), rc, k);
+                }
+                if (k > 0 && !ex.seen) VIOL("C16", "C16:unstash-no-invocation", "m_mod_unstash(%ld) should have handed %zu event(s) to the current handler but did not invoke it", op.arg(1), k);
+            }
+        }
         return;
     }
     if (n == "become") {
         int hi = (int)(1 + ((op.arg(1) % 3) + 3) % 3);
+        int st_now = state_of(m);
         ApiScope a("become", m);
         int rc = a.done(m_mod_become(h, HANDLERS[hi]));
         sim::tr("become", m, hi, rc);
+        if (on("C17")) {
+            oracle_eval("C17.become-legality");
+            if (st_now != ST_RUNNING && rc >= 0) VIOL("C17", "C17:become-while-not-running", "m_mod_become on a %s module returned %d", st_name(st_now), rc);
+            if (st_now == ST_RUNNING && rc != 0 && s.tb_rate == 0 && calm(m)) VIOL("C17", "C17:become-refused", "m_mod_become on a RUNNING module returned %d", rc);
+        }
         if (rc == 0) s.hstack.push_back(hi);
         return;
     }
     if (n == "unbecome") {
+        int st_now = state_of(m);
         ApiScope a("unbecome", m);
         int rc = a.done(m_mod_unbecome(h));
         sim::tr("unbecome", m, rc);
+        if (on("C17")) {
+            oracle_eval("C17.unbecome-legality");
+            if (st_now != ST_RUNNING && rc >= 0) VIOL("C17", "C17:unbecome-while-not-running", "m_mod_unbecome on a %s module returned %d", st_name(st_now), rc);
+            if (st_now == ST_RUNNING && s.hstack.empty() && rc >= 0) VIOL("C17", "C17:unbecome-empty-accepted", "m_mod_unbecome with an empty handler stack returned %d", rc);
+            if (st_now == ST_RUNNING && !s.hstack.empty() && rc != 0 && s.tb_rate == 0 && calm(m)) VIOL("C17", "C17:unbecome-refused", "m_mod_unbecome with %zu stacked handler(s) returned %d", s.hstack.size(), rc);
+        }
         if (rc == 0 && !s.hstack.empty()) s.hstack.pop_back();
         return;
     }
@@ -1034,7 +1113,7 @@ void exec_op(const Op &op, bool in_cb, int cb_slot) {
         ApiScope a("batch_size", m);
         int rc = a.done(m_mod_set_batch_size(h, (size_t)std::max(0L, op.arg(1))));
         sim::tr("batch_size", m, op.arg(1), rc);
-        if (rc == 0) s.batch_size = (size_t)std::max(0L, op.arg(1));
+        if (rc == 0) { s.batch_size = (size_t)std::max(0L, op.arg(1)); s.batch_changed_gseq = R->gseq; }
         return;
     }
     if (n == "batch_timeout") {
@@ -1042,14 +1121,18 @@ void exec_op(const Op &op, bool in_cb, int cb_slot) {
         ApiScope a("batch_timeout", m);
         int rc = a.done(m_mod_set_batch_timeout(h, ns));
         sim::tr("batch_timeout", m, op.arg(1), rc);
-        if (rc == 0) s.batch_timeout = ns;
+        if (rc == 0) { s.batch_timeout = ns; s.batch_changed_gseq = R->gseq; }
         return;
     }
     if (n == "tb") {
         ApiScope a("tb", m);
         int rc = a.done(m_mod_set_tokenbucket(h, (uint32_t)std::max(0L, op.arg(1)), (uint64_t)std::max(0L, op.arg(2))));
         sim::tr("tb", m, op.arg(1), rc);
-        if (rc == 0) { s.tb_rate = (uint32_t)std::max(0L, op.arg(1)); s.tb_burst = (uint64_t)std::max(0L, op.arg(2)); }
+        if (rc == 0 || op.arg(1) > 0) {
+            // (the new bucket is in force even when registering its refill timer was refused by the old bucket)
+            s.tb_rate = (uint32_t)std::max(0L, op.arg(1)); s.tb_burst = (uint64_t)std::max(0L, op.arg(2));
+            s.tb_set_time = R->now; s.tb_success_times.clear(); s.tb_refusal_armed = false;
+        }
         return;
     }
     if (n == "evt_ref") {
@@ -1145,6 +1228,8 @@ static void do_send(int kind, int from, int to, long topic_idx, bool autofree, i
         if (!W->cur_delivery.empty() && W->cur_delivery.back()->looping_known && !W->cur_delivery.back()->ctx_looping && !W->loops.empty() && !W->loops.back().ended) sd.in_flush = true;
         sd.loop_run = W->loops.empty() ? 0 : W->loops.back().id;
         uint64_t full_before = R->ctr.faults.count("pipe_full") ? R->ctr.faults["pipe_full"] : 0;
+        W->next_actor = from;
+        W->c15_reserved_topic = topic && !strncmp(topic, "LIBMODULE_", 10);
         ApiScope a(kind == 0 ? "tell" : kind == 1 ? "pub" : kind == 2 ? "bcast" : "pill", kind == 3 ? to : from);
         int rc;
         m_ps_flags pf = (m_ps_flags)(sd.autofree ? M_PS_AUTOFREE : 0);
@@ -1197,7 +1282,11 @@ static void quiescent_hook(bool real_poll) {
     orc_quiescent();
     for (auto &s : W->slots) s.recent_srcs.clear();
     W->last_quiescent_gseq = R->gseq;
-    if (real_poll) W->last_real_poll_gseq = R->gseq;
+    if (real_poll) {
+        W->last_real_poll_gseq = R->gseq; W->real_polls++; W->last_real_poll_time = R->now;
+        for (auto &sl : W->slots)
+            if (sl.tb_refusal_armed && sl.tb_rate && R->now > sl.tb_refused_at + 2 * (1000000000ULL / sl.tb_rate) + R->cfg.timer_late_ns + 2000000ULL) sl.tb_polls_after_due++;
+    }
     W->reg_dereg_since_quiescent = 0;
     W->batches_at_last_quiescent = R->k.batches.size();
     W->loop_start_pending_eval = false;
